@@ -34,6 +34,7 @@ Definition s_plus1_in := ustr "+1".
 Definition s_plus1 := ustr "plus1".
 Definition s_minus1_in := ustr "-1".
 Definition s_minus1 := ustr "minus1".
+Definition s_extra := ustr "extra".
 
 (* syn-2.0.100/src/ident.rs accept_as_ident: the strings that are lexically
    identifiers but rejected by `impl Parse for Ident` *)
@@ -147,6 +148,14 @@ Section Sanitize.
   Definition field_idents (props : list ustring) : list (ustring * option ustring) :=
     List.map (fun p => recase p Snake) props.
 
+  (* structs.rs:19-135 struct_members: the fields of the generated struct, in
+     declaration order up to the (stable) sort by identifier; when
+     additionalProperties is a schema other than true/false a flattened map
+     field named "extra" is pushed (structs.rs:121-129), again without any
+     uniqueness test *)
+  Definition struct_field_names (props : list ustring) (typed_additional : bool) : list ustring :=
+    List.map fst (field_idents props) ++ (if typed_additional then [s_extra] else []).
+
   (* util.rs:798 / lib.rs:661: one item per definition, no uniqueness test *)
   Definition def_idents (defs : list ustring) : list ustring :=
     List.map (fun d => sanitize d Pascal) defs.
@@ -192,14 +201,15 @@ Definition table_classes (t : ctable) : CharClasses :=
      to_upper := fun c => match tlookup t c with Some (_, u, _) => u | None => [c] end;
      to_lower := fun c => match tlookup t c with Some (_, _, l) => l | None => [c] end |}.
 
-(* ASCII-only classification: every non-ASCII scalar is in no class.  It
+(* ASCII-only classification: every non-ASCII scalar is in no class, except
+   that U+03C2 (final sigma, which heck can emit) is XID_Continue.  It
    satisfies all class hypotheses (non-vacuity) and agrees with Rust on ASCII. *)
 Definition a_lower (c : N) : bool := (97 <=? c) && (c <=? 122).
 Definition a_upper (c : N) : bool := (65 <=? c) && (c <=? 90).
 Definition a_digit (c : N) : bool := (48 <=? c) && (c <=? 57).
 Definition ascii_classes : CharClasses :=
   {| xid_start := fun c => a_lower c || a_upper c;
-     xid_continue := fun c => a_lower c || a_upper c || a_digit c || (c =? 95);
+     xid_continue := fun c => a_lower c || a_upper c || a_digit c || (c =? 95) || (c =? 962);
      is_alnum := fun c => a_lower c || a_upper c || a_digit c;
      is_lower := a_lower;
      is_upper := a_upper;
@@ -248,5 +258,7 @@ Definition run_variants (cls : CharClasses) (raws : list ustring) : string :=
   | Ok vs => ("ok:" ++ show_list (List.map (fun p => show_ustring (fst p) ++ "/" ++ show_rename (snd p)) vs))%string
   end.
 
-Definition run_fields (cls : CharClasses) (props : list ustring) : string :=
-  show_list (List.map (fun p => show_ustring (fst p) ++ "/" ++ show_rename (snd p))%string (field_idents cls props)).
+Definition run_fields (cls : CharClasses) (props : list ustring) (typed_additional : bool) : string :=
+  show_list (List.map (fun p => show_ustring (fst p) ++ "/" ++ show_rename (snd p))%string (field_idents cls props)
+             ++ List.map (fun n => show_ustring n ++ "/flatten")%string
+                  (skipn (List.length props) (struct_field_names cls props typed_additional))).
